@@ -267,6 +267,8 @@ class ReturnMonitor(RefMonitor):
                                      int(parents.ids[i]), int(a))
                     if not self.has_obj:
                         ex.count("returns_checked", int(st[i, a] == 2))
+                        if st[i, a] != 2:
+                            self.ret.setdefault(int(child_ids[i, a]), base + got)
                         continue
                 tot = base + float(np.sum(r[i, a]))
                 cid = int(child_ids[i, a])
